@@ -180,6 +180,7 @@ def make_scores(desc, eligible, target):
 
 MUTATIONS = []
 CALLS = [0]
+LAST_RAW = [None]
 
 
 def check_mutations(res, case):
@@ -302,6 +303,10 @@ def _call_select(screen, desc, k, batch, eligible_hint=(), target=None, shared=N
         pol = make_policy(k, log)
     scores = make_scores(desc, set(eligible_hint), target)
     ids = [np.int64(x) for x in batch] if np_ids else list(batch)
+    LAST_RAW[0] = None
+    if CALLS[0] % 4 == 1:          # the "-1 = no plate" placeholders of earlier select_next_plate outputs fed back in as batch ids
+        ids = [-1] + ids + ([-1] if len(ids) > 1 else [])
+        LAST_RAW[0] = [int(x) for x in ids]
     ids0 = list(ids)
     snap = screen_snapshot(screen)
     CALLS[0] += 1
@@ -540,6 +545,11 @@ def _run_history(ctx, res, plates, k, strat, rng, lines, expect, meta, max_len=4
                 lines.append("select %d %s %s" % (k, plates_tok(desc), ids_tok(batch)))
                 expect.append("err:%s" % err if err else ids_tok(el))
                 meta.append(c)
+                if LAST_RAW[0] is not None and cli is None:
+                    lines.append("selectraw %d %s %s" % (k, plates_tok(desc), ",".join(str(x) for x in LAST_RAW[0])))
+                    expect.append("err:%s" % err if err else ids_tok(el))
+                    meta.append(dict(c, kind="selectraw"))
+                    res.count("glue.placeholder_ids_in_batch")
                 if rnd > 0:
                     # the model's OWN account of the rounds: the screen as it was at the start + the finished batches (markObserved)
                     lines.append("rounds %d %s %s %s" % (k, plates_tok(desc0), "/".join(ids_tok(b) for b in done), ids_tok(batch)))
